@@ -410,8 +410,66 @@ Definition put_res (r : option (res output)) : val :=
   | Some EncErr => VL [VI 0; VT [85; 110; 105; 99; 111; 100; 101; 69; 110; 99; 111; 100; 101; 69; 114; 114; 111; 114]]
   end.
 
+(* ------------------------------------------------------------------ one exception object called several times
+   Object state across calls: prepare() renders only while [not self.has_body]; a successful
+   render stores the page in body/app_iter and the content type / charset in the headers, and
+   every later prepare() is a no-op, so Response.__call__ sends the stored headers and body
+   again whatever the new environ says.  A call that raised leaves has_body false (WebOb
+   re-adds the default charset when the next branch sets a text content type: validated by the
+   correspondence run).  has_body is false for an empty stored body. *)
+Definition step := (list (text * text) * list text)%type.     (* environ and negotiation result of one call *)
+Definition with_call (i : input) (s : step) : input :=
+  mkInput (i_cls i) (i_detail i) (i_comment i) (i_expl i) (i_location i) (i_headers i) (fst s) (i_tmpl i) (snd s).
+
+Definition stored (x : option (res output)) : option output :=
+  match x with
+  | Some (Ok o) => if is_nil (o_body o) then None else Some o
+  | _ => None
+  end.
+
+Fixpoint calls (P : policy) (i : input) (done : option output) (l : list step) : list (option (res output)) :=
+  match l with
+  | [] => []
+  | s :: r =>
+      match done with
+      | Some o => Some (Ok o) :: calls P i done r
+      | None => let x := prepare P (with_call i s) in x :: calls P i (stored x) r
+      end
+  end.
+
+Definition model_calls (i : input) (l : list step) := calls facts_policy i None l.
+(* what a fresh object would answer to each call on its own *)
+Definition spec_singles (i : input) (l : list step) := map (fun s => prepare spec_policy (with_call i s)) l.
+
+(* the property on a history, as a check of observed responses [rs] against [spec_singles]:
+   every rendered response is, content type, charset and body together, the specified
+   rendering of one of the calls made so far; a call may fail only if its own rendering is
+   not specified (error) *)
+Definition out_eqb (a b : output) : bool :=
+  text_eqb (o_status a) (o_status b) && text_eqb (o_ctype a) (o_ctype b) &&
+  text_eqb (o_charset a) (o_charset b) && text_eqb (o_body a) (o_body b).
+Definition is_ok_out (x : option (res output)) (o : output) : bool :=
+  match x with Some (Ok o') => out_eqb o o' | _ => false end.
+Fixpoint history_ok_from (seen : list (option (res output))) (rs singles : list (option (res output))) : bool :=
+  match rs, singles with
+  | [], [] => true
+  | r :: rs', s :: singles' =>
+      let seen' := s :: seen in
+      (match r with
+       | Some (Ok o) => existsb (fun x => is_ok_out x o) seen'
+       | _ => match s with Some (Ok _) => false | _ => true end
+       end) && history_ok_from seen' rs' singles'
+  | _, _ => false
+  end.
+Definition history_ok (rs singles : list (option (res output))) : bool := history_ok_from [] rs singles.
+
+Definition get_step (v : val) : option step :=
+  match v with VL [e; o] => olet e := get_pairs e in olet o := get_texts o in Some (e, o) | _ => None end.
+
 (* case = [cls; detail?; comment?; explanation?; location; headers; environ; body_template?; offers]
-   answer = [model; spec; spec_type] *)
+   answer = [model; spec; spec_type]
+   history case = [cls; detail?; comment?; explanation?; location; headers; body_template?; [[environ; offers] ...]]
+   answer = [model responses; single-call specifications; model history satisfies history_ok] *)
 Definition run_C19 (v : val) : val :=
   ret_or_bad (
     match v with
@@ -421,5 +479,12 @@ Definition run_C19 (v : val) : val :=
         olet en := get_pairs en in olet tm := get_opt get_text tm in olet ofs := get_texts ofs in
         let i := mkInput c d cm ex loc hs en tm ofs in
         Some (VL [put_res (model i); put_res (spec i); VT (spec_type i)])
+    | VL [c; d; cm; ex; loc; hs; tm; steps] =>
+        olet c := get_text c in olet d := get_opt get_text d in olet cm := get_opt get_text cm in
+        olet ex := get_opt get_text ex in olet loc := get_text loc in olet hs := get_pairs hs in
+        olet tm := get_opt get_text tm in olet l := get_list_of get_step steps in
+        let i := mkInput c d cm ex loc hs [] tm [] in
+        Some (VL [VL (map put_res (model_calls i l)); VL (map put_res (spec_singles i l));
+                  vbool (history_ok (model_calls i l) (spec_singles i l))])
     | _ => None
     end).
